@@ -65,8 +65,9 @@ def conf_trees(text):
 
 # ------------------------------------------------------------------ history generator
 class Gen:
-    def __init__(self, rng, ctx=None, provider=None, policies=None, kinds=None, faults=True):
+    def __init__(self, rng, ctx=None, provider=None, policies=None, kinds=None, faults=True, wf=False):
         self.rng, self.ctx = rng, ctx
+        self.wf = wf               # stay inside the histories the L2 theorems quantify over (Proofs/PluginInv.v wf_op)
         self.pools = plugin_topology(rng)
         self.provider = rng.random() < 0.5 if provider is None else provider
         self.uidn = 0
@@ -142,9 +143,17 @@ class Gen:
                 f = {}
                 if self.faults and r.random() < 0.2:
                     f = r.choice([{"fstore": r.choice([0, 1])}, {"fcloud": r.choice([0, 1])}, {"fbind": 1}])
-                return dict({"op": k, "ns": ns, "name": name, "uid": r.choice(["@truth"] * 6 + ["u1", ""]), "node": r.choice(sorted(NODES))}, **f)
+                return dict({"op": k, "ns": ns, "name": name, "uid": r.choice(["@truth"] * 6 + (["u1", "u2"] if self.wf else ["u1", ""])),
+                             "node": r.choice(sorted(NODES))}, **f)
             if k == "pod_phase":
-                return {"op": k, "ns": ns, "name": name, "phase": r.choice([1, 1, 2, 3])}
+                ph = r.choice([1, 1, 2, 3])
+                sp = self.truth.get(key)
+                if self.wf and sp is not None:
+                    if sp.get("_finished"):
+                        ph = r.choice([2, 3])          # a finished pod never runs again
+                    if ph in (2, 3):
+                        sp["_finished"] = True
+                return {"op": k, "ns": ns, "name": name, "phase": ph}
             if k == "pod_delete":
                 self.truth.pop(key, None)
                 return {"op": k, "ns": ns, "name": name}
